@@ -693,35 +693,94 @@ func (s *Server) execNative(p *prepared, bp *boundParams, tx *Tx) (*rowset, stri
 		return rs, fmtTag("SELECT", len(rs.rows)), nil
 	case "prune_task":
 		keep, _ := bp.vals[0].(int64)
+		ps := p.st.prune
 		t := s.tables["shovel.task_updates"]
-		si, ii, ni := t.ColIdx("src_name"), t.ColIdx("ig_name"), t.ColIdx("num")
+		idx := func(cols []string) ([]int, *PGError) {
+			var res []int
+			for _, cn := range cols {
+				ci := t.ColIdx(cn)
+				if ci < 0 {
+					return nil, pgErr("42703", "column %q does not exist", cn)
+				}
+				res = append(res, ci)
+			}
+			return res, nil
+		}
+		ti, err := idx(ps.tuple)
+		if err != nil {
+			return nil, "", err
+		}
+		si, err := idx(ps.sel)
+		if err != nil {
+			return nil, "", err
+		}
+		pi, err := idx(ps.part)
+		if err != nil {
+			return nil, "", err
+		}
+		oi, err := idx([]string{ps.order})
+		if err != nil {
+			return nil, "", err
+		}
+		var vis []*Row
 		groups := map[string][]*Row{}
 		for _, r := range t.Rows {
 			if !s.visible(r, tx) {
 				continue
 			}
-			// (src_name, ig_name, num) NOT IN (...): rows with a NULL member are never deleted
-			if r.Vals[si] == nil || r.Vals[ii] == nil || r.Vals[ni] == nil {
-				continue
+			vis = append(vis, r)
+			k := ""
+			for _, ci := range pi {
+				k += valueString(r.Vals[ci]) + "\x00"
 			}
-			k := valueString(r.Vals[si]) + "\x00" + valueString(r.Vals[ii])
 			groups[k] = append(groups[k], r)
 		}
-		n := 0
+		// rows kept by the sub-select (rn <=|< $1), as tuples of the selected columns
+		keepSet := map[string]bool{}
+		subHasNull := false
 		for _, rows := range groups {
 			sort.SliceStable(rows, func(a, b int) bool {
-				c, _ := compareValues(rows[a].Vals[ni], rows[b].Vals[ni])
-				return c > 0
+				va, vb := rows[a].Vals[oi[0]], rows[b].Vals[oi[0]]
+				if va == nil || vb == nil {
+					return vb == nil && va != nil == !ps.desc // NULLS LAST asc / FIRST desc
+				}
+				c, _ := compareValues(va, vb)
+				if ps.desc {
+					return c > 0
+				}
+				return c < 0
 			})
 			for i, r := range rows {
-				if int64(i) < keep {
-					continue
+				rn := int64(i + 1)
+				if rn < keep || (!ps.strict && rn == keep) {
+					k := ""
+					for _, ci := range si {
+						if r.Vals[ci] == nil {
+							subHasNull = true
+						}
+						k += valueString(r.Vals[ci]) + "\x00"
+					}
+					keepSet[k] = true
 				}
-				if err := s.deleteRow(t, r, tx); err != nil {
-					return nil, "", err
-				}
-				n++
 			}
+		}
+		n := 0
+		for _, r := range vis {
+			k, hasNull := "", false
+			for _, ci := range ti {
+				if r.Vals[ci] == nil {
+					hasNull = true
+				}
+				k += valueString(r.Vals[ci]) + "\x00"
+			}
+			// x NOT IN (…) is true only if x has no NULL member, matches nothing, and the list has no NULL member
+			if hasNull || subHasNull || keepSet[k] {
+				continue
+			}
+			if err := s.deleteRow(t, r, tx); err != nil {
+				return nil, "", err
+			}
+			n++
 		}
 		return nil, fmtTag("DELETE", n), nil
 	case "task_updates", "source_updates":
